@@ -164,6 +164,7 @@ func cmdCheck(args []string) int {
 	trusted := map[string]bool{}
 	unknownExt := map[string]int{}
 	abstracted := map[string]int{}
+	var uncheckedCallers []string
 	for _, pr := range conf.Pkgs {
 		c, err := load(pr.Dir, pr.Pattern, "verif")
 		if err != nil {
@@ -179,6 +180,44 @@ func cmdCheck(args []string) int {
 				continue
 			}
 			labels = append(labels, label)
+		}
+		// modularity: a `requires` of a function verified for this property is only as good as its
+		// call sites; contracted callers are verified too (their pre@ obligations count toward
+		// this property), callers with no contract at all are reported as unchecked
+		withReq := map[string]bool{}
+		for _, l := range labels {
+			for _, cl := range c.contracts[l].Clauses {
+				if cl.Kind == "requires" && containsStr(cl.Props, *prop) {
+					withReq[l] = true
+				}
+			}
+		}
+		if len(withReq) > 0 {
+			inLabels := map[string]bool{}
+			for _, l := range labels {
+				inLabels[l] = true
+			}
+			for callerLabel, fn := range c.fnByLabel {
+				callsOne := ""
+				for _, b := range fn.Blocks {
+					for _, in := range b.Instrs {
+						if ci, ok := in.(ssa.CallInstruction); ok {
+							if callee := ci.Common().StaticCallee(); callee != nil && withReq[c.label(callee)] {
+								callsOne = c.label(callee)
+							}
+						}
+					}
+				}
+				if callsOne == "" || inLabels[callerLabel] {
+					continue
+				}
+				if fc2 := c.contracts[callerLabel]; fc2 != nil && !fc2.Extern {
+					labels = append(labels, callerLabel)
+					inLabels[callerLabel] = true
+				} else {
+					uncheckedCallers = append(uncheckedCallers, callerLabel+" calls "+callsOne)
+				}
+			}
 		}
 		sort.Strings(labels)
 		for _, label := range labels {
@@ -436,6 +475,7 @@ func cmdCheck(args []string) int {
 				"residual_not_covered":                     conf.Residual,
 				"samples":                                  samples,
 				"bounded_stand_ins":                        boundedReports,
+				"callers_without_contract_whose_preconditions_are_unchecked": uncheckedCallers,
 				"explanation":                              conf.Explanation,
 			},
 			"assumptions": assumptions,
